@@ -208,11 +208,11 @@ class PyDBMLParser:
     def locate_table(self, schema: str, name: str) -> "Table":
         if not self.database:
             raise RuntimeError("Database is not ready")
-        # first by alias
-        result = self.database.table_dict.get(name)
+        # first by full name, then by alias
+        full_name = f"{schema}.{name}"
+        result = self.database.table_dict.get(full_name)
         if result is None:
-            full_name = f"{schema}.{name}"
-            result = self.database.table_dict.get(full_name)
+            result = self.database.table_dict.get(name)
         if result is None:
             raise TableNotFoundError(f"Table {full_name} not present in the database")
         return result
